@@ -51,4 +51,24 @@ PROPS = {
             "cell.UdpHeader.UdpLen": 10,
         },
     },
+    "C05": {
+        "level": "exploration",
+        "rule": "cases = generated packets (clean, hostile, every truncation point of a packet, IP-level, single lax layers) "
+                "through every lax entry point (LaxSlicedPacket x3, LaxPacketHeaders x4, LaxIpSlice, LaxIpv4Slice, LaxIpv6Slice, "
+                "IpHeaders::*_lax x3, LaxMacsecSlice, UdpSlice::from_slice_lax, Ipv6Extensions(Slice)::from_slice_lax) compared with "
+                "(a) the strict sibling on the same bytes and (b) the reference decoder in lax mode; non-trivial = decoded past "
+                "the first header or recorded a stop error; distinct = distinct (entry point, layer sequence, stop error class, stop layer)",
+        "assumptions": COMMON_ASSUME + [
+            "reference decoder R in lax mode (DESIGN appendix B) incl. the documented relaxations (IPv4 total_len / IPv6 "
+            "payload_len / MACsec short length / UDP length fall back to the slice)",
+        ],
+        "runs": {"quick": [dict(CHK)], "thorough": [dict(CHK)]},
+        "mandatory": {
+            "strict_ok_lax_same": 10000, "lax.layers_agree": 10000, "lax.no_stop": 1000, "lax.err_first_header": 100,
+            "lax.stop.Vlan": 10, "lax.stop.Macsec": 10, "lax.stop.Arp": 10, "lax.stop.Ext*": 10, "lax.stop.Udp": 10,
+            "lax.stop.Tcp": 10, "lax.stop.Icmp4": 5, "lax.stop.Icmp6": 5, "lax.stop.Ipv4": 10,
+            "lax.incomplete_true.Macsec": 10, "lax.incomplete_true.Ipv4": 100, "lax.incomplete_true.Ipv6": 100,
+            "lax.single_agree": 1000,
+        },
+    },
 }
